@@ -545,10 +545,19 @@ def run_c13(tier: str) -> int:
     rep.cov["states"] = r.distinct
     rep.cov["transitions"] = r.generated
     if tier == "thorough":
+        # four parameters over two values and two defaults (None / 1, None / 0)
+        d4 = common.stage_spec({"ValuesConf.tla": valuesconf.module("spell", 1, max_params=4, min_params=4,
+                                                                  arg_ids=["none", "i1"], default_ids=["none", "i0"])}, "spell4")
+        r4 = common.run_tlc(d4, "DdsValues.tla", "DdsValues.cfg", workers=1, timeout=1800)
+        common.tlc_must_pass(r4, "DdsValues (spellings, 4 parameters)")
+        plists += r4.printed("SPELL")
+        rep.cov["states"] += r4.distinct
+        rep.cov["transitions"] += r4.generated
+    if tier == "thorough":
         # three parameters: every parameter list, spellings sampled
         rnd = random.Random(common.seed())
         for pl in plists:
-            if len(pl["ps"]) == 3 and len(pl["sp"]) > 250:
+            if len(pl["ps"]) >= 3 and len(pl["sp"]) > 250:
                 pl["sp"] = rnd.sample(pl["sp"], 250)
     base = common.sub_scratch("spell")
     tasks = [(i, pl["ps"], pl["sp"], base) for (i, pl) in enumerate(plists)]
@@ -609,7 +618,7 @@ def run_c13(tier: str) -> int:
                        "both orders / defaults omitted or explicit, values from {None,0,1,True,'','a'}) made directly and as "
                        "literals in an evaluated function; distinct_nontrivial = number of distinct (function, binding) pairs")
     rep.cov["exhaustive"] = tier == "quick"
-    rep.cov["exhaustive_part"] = "all parameter lists with <= %d parameters x all spellings (3-parameter spellings sampled in thorough)" % maxp
+    rep.cov["exhaustive_part"] = "all parameter lists with <= %d parameters x all spellings (3-parameter spellings sampled in thorough; thorough adds every 4-parameter list over 2 values / 2 defaults, spellings sampled)" % maxp
     rep.assumptions += ["bool = int is a documented identification: True and 1 may share a signature",
                         "only ast.Constant literals count as literals seen in source"]
     return rep.finish()
